@@ -155,9 +155,10 @@ def translate(repo):
         b = lambda x: "true" if x else "false"
         out.append(f"  | {ctor} => ({b(g['_states'])}, {b(g['_actions'])}, {b(g['_disturbances'])})")
     out += ["  end.", ""]
-    from translator import forwarding, effects
+    from translator import forwarding, effects, facts
     out += forwarding.translate(repo)
     out += effects.translate(repo)
+    out += facts.translate(repo)
     return "\n".join(out) + "\n"
 
 
